@@ -7,11 +7,11 @@ connection use, method by method: `Reserve`, `Reserved`, `Commit`, `Data`, `Read
 `wi` and `cap` are never read before they are overwritten, so they are not stored.  Every slice
 expression of the Go code is a checked operation here: a bound outside `0 ≤ lo ≤ hi ≤ cap` is the
 outcome `.error .sliceBounds` (Go would panic).  The capacity after `append` is chosen by the Go
-runtime: it is an argument (`cap'`), constrained only by `…EnvOk`.
+runtime: it is an argument (`cap'`), checked for admissibility where it is used.
 
 Index arithmetic is over `Int` without wrap-around: under `Buf.Inv` (proved to hold in every reachable
-state, `Lemmas/WsDecode.lean`) all operands lie in `[0, cap] ⊆ [0, MaxInt64]`; the two places where
-the codec can hand over a wrapped value (`PrepareRead`'s `n - ReadLen()`) use `Go.sub`.
+state, `Lemmas/WsDecode.lean`) all operands lie in `[0, cap] ⊆ [0, MaxInt64]`; `PrepareRead`'s
+`n - ReadLen()`, which the codec can reach with a wrapped `n`, uses `Go.sub`.
 -/
 import Sonic.Go.Prelude
 
@@ -70,11 +70,9 @@ def Commit (b : Buf) (n : Int) : Buf :=
 
 /-- `PrepareRead(n)`; the boolean is `err == ErrNeedMore`. -/
 def PrepareRead (b : Buf) (n : Int) : M (Buf × Bool) := do
-  let rl ← b.ReadLen
-  let need := Go.sub n rl
-  if need > 0 then
-    let wl ← b.WriteLen
-    if wl ≥ need then pure (b.Commit need, false) else pure (b, true)
+  if n > (← b.ReadLen) then
+    let need := Go.sub n (← b.ReadLen)
+    if (← b.WriteLen) ≥ need then pure (b.Commit need, false) else pure (b, true)
   else pure (b, false)
 
 def Consume (b : Buf) (n : Int) : M Buf :=
